@@ -121,7 +121,7 @@ def parseOp (s : St) (toks : List String) : Option Op :=
   | "start" => some .start
   | "stop" => some .stop
   | "verify" => some .verify
-  | "obs" | "announce" | "diskcheck" | "magnet" | "crashcheck" | "reload" => some .nop
+  | "obs" | "announce" | "diskcheck" | "magnet" | "crashcheck" | "reload" | "addtracker" => some .nop
   | "persist" => some .persist
   | "waitstop" => some .waitstop
   | "trk" => some (.trk [])
@@ -177,10 +177,13 @@ structure DSt where
   startWhileStopping : Bool := false
   /-- a verify command was given and the implementation has not been seen Stopped since -/
   verifyPending : Bool := false
+  /-- the implementation could not listen on the peer port in this run (taken by another process: environment);
+  the model's `acceptor` follows the implementation, but the periodical announcers run all the same -/
+  noListen : Bool := false
   parked : Parked := none
 
 def renderObs (s : St) (verdict : String) (outs : List Out) (impl : List (String × String))
-    (dlTok : String) (ntrk : Nat := 0) (anns : List String := []) : String :=
+    (dlTok : String) (ntrk : Nat := 0) (anns : List String := []) (noListen : Bool := false) : String :=
   let pred (k : String) (v : String) : String :=
     match k with
     | "st" => s.status.str
@@ -214,7 +217,7 @@ def renderObs (s : St) (verdict : String) (outs : List Out) (impl : List (String
     | "open" => toString (s.openFiles.length + s.leaked)
     | "workers" =>
       joinOrDash ((if s.allocator then ["alloc"] else []) ++ (if s.verifier then ["verify"] else []) ++
-        (if s.stopAnn then ["stopann"] else []) ++ (if s.acceptor && ntrk > 0 then [s!"ann{ntrk}"] else []) ++
+        (if s.stopAnn then ["stopann"] else []) ++ (if (s.acceptor || noListen) && ntrk > 0 then [s!"ann{ntrk}"] else []) ++
         (if s.acceptor then ["acceptor"] else []))
     | "susp" => boolStr s.writing.isSome
     | "ram" => s!"{s.dls.length}/{s.dls.length * s.cfg.pl}"
@@ -381,8 +384,9 @@ def stepDriver (d : DSt) (op implObs : String) : DSt × String × List String :=
                    else (List.range d.trk.ntrk).map fun i =>
                      if kvStr toks "i" = "" || kvNat toks "i" = i then hang else d.trk.hang.getD i false
         { d.trk with hang := upd }
+      else if toks.headD "" = "addtracker" then { ntrk := d.trk.ntrk + 1, hang := d.trk.hang ++ [false] }
       else d.trk
-    let s := { s with stopHang := if s.stopAnn then s.stopHang else (s.acceptor && trk.anyHang) }
+    let s := { s with stopHang := if s.stopAnn then s.stopHang else ((s.acceptor || d.noListen) && trk.anyHang) }
     let prevSt := s
     match parseOp s toks with
     | none => (d, implObs, [])
@@ -395,7 +399,10 @@ def stepDriver (d : DSt) (op implObs : String) : DSt × String × List String :=
       | _ => d.knownPeers
     -- listening on the peer port can fail for reasons outside the program (port taken): follow the implementation
     let implWorkers := commaList (((impl.find? fun (k, _) => k = "workers").map (·.2)).getD "-")
-    let st1 := if st1.acceptor && !s.acceptor && !(implWorkers.contains "acceptor") then { st1 with acceptor := false } else st1
+    let listenFailedNow := st1.acceptor && !s.acceptor && !(implWorkers.contains "acceptor")
+    let st1 := if listenFailedNow then { st1 with acceptor := false } else st1
+    let quietSt (x : St) : Bool := x.status = .stopped || x.status = .stopping
+    let noListen := (d.noListen || listenFailedNow) && !(quietSt st1)
     match st1.panicked with
     | some why => ({ d with s := some st1, knownPeers := known, trk := trk }, "model-panic:" ++ why, [s!"C04 model-predicts-panic why={why.replace " " "_"}"])
     | none =>
@@ -429,7 +436,13 @@ def stepDriver (d : DSt) (op implObs : String) : DSt × String × List String :=
       let implDials := (((impl.find? fun (k, _) => k = "dials").bind fun (_, x) => x.toNat?)).getD d.implDials
       -- announces the stub trackers must have received in this op, with the identity they must carry
       let ident := (if st2.cfg.isPrivate && st2.infoAtAdd then "priv:priv" else "pub:pub") ++ ":ok"
-      let anns := (annEvents trk prevSt st2).map fun (i, ev) => s!"{i}:{ev}:{ident}"
+      -- a tracker added while the announcers run gets its own announcer at once (`started`); added to a stopped
+      -- or stopping torrent it is only remembered (the generators add trackers in these two situations only)
+      let addEv : List (Nat × String) :=
+        if toks.headD "" = "addtracker" && (prevSt.acceptor || d.noListen) && (st2.acceptor || noListen) then [(d.trk.ntrk, "started")] else []
+      let annPrev : St := { prevSt with acceptor := prevSt.acceptor || d.noListen }
+      let annNew : St := { st2 with acceptor := st2.acceptor || noListen }
+      let anns := ((if toks.headD "" = "addtracker" then [] else annEvents trk annPrev annNew) ++ addEv).map fun (i, ev) => s!"{i}:{ev}:{ident}"
       let implAnn := commaList (((impl.find? fun (k, _) => k = "ann").map (·.2)).getD "-")
       -- C15 transfer counters: `left` of a `stopped` announce is what the bitfield says is missing (before or
       -- after this op), of a `completed` announce 0, of any other announce one of those or the "unknown" value
@@ -446,7 +459,12 @@ def stepDriver (d : DSt) (op implObs : String) : DSt × String × List String :=
           let okStopped := l = leftOf prevSt.bf || l = leftOf st2.bf
           let ok := if ev = "stopped" then okStopped else if ev = "completed" then l = 0 else (okStopped || l = 4294967295)
           if (f.getD 5 "").startsWith "L" && !ok then some s!"C15 announce-left-differs-from-missing-bytes entry={e} expected={leftOf prevSt.bf}|{leftOf st2.bf}" else none
-      let annViol := leftViol ++
+      let quiet (x : St) : Bool := x.status = .stopped || x.status = .stopping
+      let stoppedViol := if quiet prevSt && quiet st2 && toks.headD "" ≠ "waitstop" then implAnn.filterMap fun e =>
+          let ev := (e.splitOn ":").getD 1 ""
+          if ev = "started" || ev = "none" || ev = "completed" then some s!"C15 announce-from-stopped-torrent entry={e}" else none
+        else []
+      let annViol := leftViol ++ stoppedViol ++
         (implAnn.filterMap fun e =>
           if (e.splitOn "!mismatch").length ≥ 2 || (e.splitOn ":bad:").length ≥ 2 || e.endsWith ":bad" || e.endsWith ":Pbad" then some s!"C15 announce-identity-differs-from-torrent entry={e}" else none) ++
         (if st2.cfg.isPrivate && st2.infoAtAdd then implAnn.filterMap fun e =>
@@ -467,8 +485,8 @@ def stepDriver (d : DSt) (op implObs : String) : DSt × String × List String :=
         (if toks.headD "" = "waitstop" && sws && implSt = "Stopped" && st2.status ≠ .stopped then ["C04 start-dropped-while-stopping"] else []) ++
         (if vp && (implSt = "Downloading" || implSt = "Seeding") then [s!"C04 verification-request-did-not-end-stopped st={implSt}"] else [])
       let sws := if toks.headD "" = "waitstop" then false else sws
-      ({ s := some st2, parked := parked, implDials := implDials, knownPeers := known, trk := trk, startWhileStopping := sws, verifyPending := vp },
-        renderObs st2 r.verdict outs1 impl dlTok trk.ntrk anns, viol ++ annViol ++ c04trk)
+      ({ s := some st2, parked := parked, implDials := implDials, knownPeers := known, trk := trk, startWhileStopping := sws, verifyPending := vp, noListen := noListen },
+        renderObs st2 r.verdict outs1 impl dlTok trk.ntrk anns noListen, viol ++ annViol ++ c04trk)
 
 def mkSuite (name : String) : Suite where
   name := name
